@@ -268,7 +268,7 @@ def mujoco_part(ck):
     env = dict(os.environ)
     env.pop("JAX_ENABLE_X64", None)
     cmd = [sys.executable, "-m", "harness.sub_c17_mujoco", "--envs", ",".join(names), "--steps", str(steps),
-           "--resets", str(resets), "--seed", str(ck.seed)]
+           "--resets", str(resets), "--seed", str(ck.seed), "--options"]   # incl. the documented non-default constructor options
     t0 = time.time()
     try:
         p = subprocess.run(cmd, cwd=str(VERIF), env=env, stdout=subprocess.PIPE, stderr=subprocess.STDOUT, text=True,
